@@ -70,11 +70,32 @@ func canonLine(rest string) string {
 	return ca + "\t" + cb
 }
 
+// runScript runs a script; a process that could not even be started (fork/exec failure on a
+// loaded machine) is retried and finally reported as not run, never as an outcome.
+func runScript(e *lib.Env, src string, timeout time.Duration) (lib.ProcResult, bool) {
+	var r lib.ProcResult
+	for attempt := 0; attempt < 6; attempt++ {
+		r = e.RunScript(src, timeout)
+		if r.Err == nil && r.Exit != -2 {
+			return r, true
+		}
+		time.Sleep(time.Duration(200*(attempt+1)) * time.Millisecond)
+	}
+	return r, false
+}
+
 // runBatch executes the cases `ids` in one process; when the process dies in the middle the
 // case that was running is marked and the rest is resumed in a new process.
 func runBatch(e *lib.Env, cases []*Case, ids []int, res []outcome) {
 	for len(ids) > 0 {
-		r := e.RunScript(script(cases, ids), 120*time.Second)
+		r, started := runScript(e, script(cases, ids), 120*time.Second)
+		if !started {
+			for _, id := range ids {
+				res[id] = outcome{undone: true}
+			}
+			e.Inconclusive(fmt.Sprintf("could not start the interpreter for a batch of %d cases: %v", len(ids), r.Err))
+			return
+		}
 		lines := parseLines(r.Stdout)
 		firstMissing := -1
 		for k, id := range ids {
@@ -135,8 +156,8 @@ func main() {
 	g.enumerateArrays(full)
 	g.enumerateStrings()
 	enumerated := len(g.cases)
-	g.seededArrays(e.Rand("arrays"), e.Pick(150, 6000))
-	g.seededStrings(e.Rand("strings"), e.Pick(150, 6000))
+	g.seededArrays(e.Rand("arrays"), e.Pick(300, 6000))
+	g.seededStrings(e.Rand("strings"), e.Pick(300, 6000))
 	cases := g.cases
 
 	// batches of consecutive cases (one method family after the other, so that a dying batch
@@ -193,7 +214,11 @@ func main() {
 		id := rerun[k].id
 		c := cases[id]
 		o := res[id]
-		alone := e.RunScript(c.Standalone(), 60*time.Second)
+		alone, started := runScript(e, c.Standalone(), 60*time.Second)
+		if !started {
+			e.Inconclusive(fmt.Sprintf("could not start the interpreter re-running %s: %v", c.Desc(), alone.Err))
+			return
+		}
 		if alone.TimedOut {
 			e.Inconclusive("watchdog fired re-running " + c.Desc())
 			return
@@ -224,6 +249,15 @@ func main() {
 			}
 			replay = "<?php /* case @" + strconv.Itoa(id) + " differs only in this batch */ ?>" + script(cases, ids)
 			got = o.got + o.died
+			// must reproduce: a batch process killed from outside (OOM, signal) is not an outcome
+			again := make([]outcome, len(cases))
+			mu.Unlock()
+			runBatch(e, cases, ids, again)
+			mu.Lock()
+			if a := again[id]; a.undone || (a.ok && a.got == c.Want()) {
+				e.Inconclusive("disagreement inside a batch did not reproduce: " + c.Desc() + " observed " + got)
+				return
+			}
 		}
 		switch {
 		case strings.HasPrefix(got, "DIED"):
